@@ -283,7 +283,7 @@ def C20(ctx):
 
 
 def C04(ctx):
-    if common_prelude(ctx, ["Props.C04", "Props.C04Enc", "Props.C04Iso", "Props.C04Gen", "Props.ConnSkeleton"]):
+    if common_prelude(ctx, ["Props.C04", "Props.C04Enc", "Props.C04Iso", "Props.C04E2E", "Props.C04Gen", "Props.ConnSkeleton"]):
         n = sizes(ctx, 250, 4000)
         for sd in seeds(ctx):
             res = run_harness(ctx, f"frame-{sd}", "conn", ["-mode", "frame", "-seed", str(sd), "-n", str(n)])
@@ -291,7 +291,7 @@ def C04(ctx):
     ctx.rules.append("real Initiator and Acceptor (1-3 simultaneous connections) over in-memory pipes with a recording handler: 1-8 random well-formed messages per connection (values containing '10=', "
                      "'110=', fields longer than bufio's 4096-byte buffer; a quarter of the cases with 1-3 damaged segments before the first message, a quarter ending inside a message), streams cut into 1-byte / tiny / medium / large writes, channel buffers 0/1/10; the handler must get exactly the messages sent "
                      "(one call at a time) and the model's frame op must agree; outbound: messages handed to Outgoing() must appear on the peer's side whole and in order; non-trivial = distinct chunked streams")
-    return finish(ctx, "proof", "Lean theorems C04_chunk / C04_frame (reader state machine, all message sequences and all chunkings) and C04_pipeline (FIFO hand-offs, all schedules), C04_encoded_stream (every sequence of encoder outputs under every chunking is reassembled exactly: C17_wire composed with C04_frame), C04_resync (damage confined to one delivery from any reader state), C04_conservation / C04_only_frames (every byte stream), C04_isolation (every interleaving of arrivals on any number of connections) + regenerated channel facts (C04_channels) + correspondence over scripted transports",
+    return finish(ctx, "proof", "Lean theorems C04_chunk / C04_frame (reader state machine, all message sequences and all chunkings) and C04_pipeline (FIFO hand-offs, all schedules), C04_encoded_stream (every sequence of encoder outputs under every chunking is reassembled exactly: C17_wire composed with C04_frame), C04_resync (damage confined to one delivery from any reader state), C04_conservation / C04_only_frames (every byte stream), C04_isolation (every interleaving of arrivals on any number of connections), C04_end_to_end (both pipelines under any schedules, any chunking) + regenerated channel facts (C04_channels) + correspondence over scripted transports",
                   TRUSTED_COMMON + ["bufio.Reader.ReadBytes returns everything up to and including the delimiter independent of read chunking; Go channels are FIFO",
                                     "the extractor's inventory of channel sends/receives (one sender per hand-off channel)"],
                   ["messages are well-formed: no field other than the last starts with '10='"], CHECKER)
